@@ -188,147 +188,6 @@ theorem walk_zone_facts (cfg : Cfg) (d : Desc) (zones : List String) (op : Op)
                     · exact hinst
                     · exact ihd i hi'
 
-/-! ### C02, not zone-aware -/
-
-theorem quorum_intersect_flat (cfg : Cfg) (d : Desc) (toks toks' : List Nat) (key : Nat) (now : Int)
-    (W : RSet) (R : RSetAll) (A B : List Inst) (hza : cfg.zoneAware = false)
-    (hW : C01.get cfg d toks key opWrite now = .ok W) (hR : getAll cfg d toks' opRead now = .ok R)
-    (hA : writeOk A W) (hB : readOkFlat B R) : ∃ i, i ∈ A ∧ i ∈ B := by
-  obtain ⟨hrf, l, hwalk, hWi, hWn⟩ := PfC01.get_ok_inv cfg d toks key opWrite now W hW
-  have hld : ∀ i ∈ l, i ∈ d := PfC01.walk_subset cfg d _ 1 opWrite _ _ l hwalk
-  have hAd : ∀ a ∈ A, a ∈ d := by
-    intro a ha
-    have := hA.2.1 a ha
-    rw [hWi] at this
-    exact hld a (List.mem_filter.mp this).1
-  -- the read side
-  unfold getAll at hR
-  dsimp only at hR
-  by_cases h0 : toks'.length = 0
-  · rw [if_pos h0] at hR; cases hR
-  · rw [if_neg h0, hza] at hR
-    simp only [Bool.false_eq_true, if_false] at hR
-    have hmax : (if d.length < cfg.rf then cfg.rf else d.length) = max d.length cfg.rf := by
-      rw [Nat.max_def]; split <;> split <;> omega
-    rw [hmax] at hR
-    by_cases hlt : (d.filter (isHealthy opRead cfg.hbTimeout now)).length < max d.length cfg.rf - cfg.rf / 2
-    · rw [if_pos hlt] at hR; cases hR
-    · rw [if_neg hlt] at hR
-      cases hR
-      have hBd : ∀ b ∈ B, b ∈ d := fun b hb => (List.mem_filter.mp (hB.2.1 b hb)).1
-      have hBn := hB.2.2
-      simp only at hBn
-      have hAn := hA.2.2
-      rw [hWn] at hAn
-      have hm := PfC01.majority_ge cfg.rf l.length
-      apply pigeonhole A B d hA.1 hB.1 hAd hBd
-      have h2 : cfg.rf / 2 ≤ cfg.rf := Nat.div_le_self _ _
-      have h3 : d.length ≤ max d.length cfg.rf := Nat.le_max_left _ _
-      have h4 : cfg.rf ≤ max d.length cfg.rf := Nat.le_max_right _ _
-      omega
-
-/-! ### C02, zone-aware -/
-
-theorem healthy_write_read (now to : Int) (i : Inst) (h : isHealthy opWrite to now i = true) :
-    isHealthy opRead to now i = true ∧ extendsOn opWrite i.state = false := by
-  unfold isHealthy at h ⊢
-  rw [Bool.and_eq_true] at h
-  obtain ⟨hs, ht⟩ := h
-  have : healthyState opRead i.state = true ∧ extendsOn opWrite i.state = false := by
-    revert hs; cases i.state <;> decide
-  rw [this.1, ht]; exact ⟨rfl, this.2⟩
-
-theorem quorum_intersect_zones (cfg : Cfg) (d : Desc) (toks toks' : List Nat) (key : Nat) (now : Int)
-    (W : RSet) (R : RSetAll) (A : List Inst) (Zs : List String) (hza : cfg.zoneAware = true)
-    (hz : ∀ i ∈ d, i.zone ≠ "")
-    (hW : C01.get cfg d toks key opWrite now = .ok W) (hR : getAll cfg d toks' opRead now = .ok R)
-    (hA : writeOk A W) (hZ : readOkZones Zs R) :
-    ∃ i, i ∈ A ∧ i ∈ R.instances ∧ i.zone ∈ Zs := by
-  obtain ⟨hrf, l, hwalk, hWi, hWn⟩ := PfC01.get_ok_inv cfg d toks key opWrite now W hW
-  obtain ⟨hnodup, _, hld⟩ := walk_zone_facts cfg d _ opWrite hza hz _ _ l hwalk
-  -- write side: members of A are healthy ACTIVE registered instances in pairwise distinct zones
-  have hAl : ∀ a ∈ A, a ∈ l.filter (fun i => !extendsOn opWrite i.state) ∧ isHealthy opRead cfg.hbTimeout now a = true ∧ a ∈ d := by
-    intro a ha
-    have h1 := hA.2.1 a ha
-    rw [hWi] at h1
-    have h2 := List.mem_filter.mp h1
-    have h3 := healthy_write_read now cfg.hbTimeout a h2.2
-    exact ⟨List.mem_filter.mpr ⟨h2.1, by simp [h3.2]⟩, h3.1, hld a h2.1⟩
-  have hAz : (A.map (·.zone)).Nodup :=
-    map_nodup_of_subset (·.zone) _ A hnodup hA.1 (fun a ha => (hAl a ha).1)
-  have hAn := hA.2.2
-  rw [hWn] at hAn
-  have hm := PfC01.majority_ge cfg.rf l.length
-  -- read side
-  unfold getAll at hR
-  dsimp only at hR
-  by_cases h0 : toks'.length = 0
-  · rw [if_pos h0] at hR; cases hR
-  · rw [if_neg h0, hza] at hR
-    simp only [if_true] at hR
-    by_cases hfgt : (zonesOf (d.filter (fun i => !isHealthy opRead cfg.hbTimeout now i))).length
-        > min (zonesOf d).length cfg.rf / 2 + 1 - 1
-    · rw [if_pos hfgt] at hR; cases hR
-    · rw [if_neg hfgt] at hR
-      cases hR
-      obtain ⟨hZn, hZsub, hZlen⟩ := hZ
-      simp only at hZsub hZlen
-      -- abbreviations
-      generalize hF : zonesOf (d.filter (fun i => !isHealthy opRead cfg.hbTimeout now i)) = F at *
-      generalize hRi : (if F.length > 0 then (d.filter (isHealthy opRead cfg.hbTimeout now)).filter (fun i => !F.contains i.zone)
-                        else d.filter (isHealthy opRead cfg.hbTimeout now)) = Ri at *
-      have hRmem : ∀ i ∈ d, isHealthy opRead cfg.hbTimeout now i = true → i.zone ∉ F → i ∈ Ri := by
-        intro i hi hh hnf
-        rw [← hRi]
-        split
-        · exact List.mem_filter.mpr ⟨List.mem_filter.mpr ⟨hi, hh⟩, by simpa using hnf⟩
-        · exact List.mem_filter.mpr ⟨hi, hh⟩
-      have hRsub : ∀ i ∈ Ri, i ∈ d ∧ i.zone ∉ F := by
-        intro i hi
-        rw [← hRi] at hi
-        split at hi
-        · have h1 := List.mem_filter.mp hi
-          exact ⟨(List.mem_filter.mp h1.1).1, by simpa using h1.2⟩
-        · rename_i hf0
-          have : F = [] := List.length_eq_zero_iff.mp (by omega)
-          exact ⟨(List.mem_filter.mp hi).1, by rw [this]; exact List.not_mem_nil⟩
-      -- every zone of the ring is a zone of R or a failing zone
-      have hcover : ∀ z ∈ zonesOf d, z ∈ zonesOf Ri ++ F := by
-        intro z hzmem
-        rcases (mem_zonesOf z d).mp hzmem with ⟨i, hi, rfl⟩
-        by_cases hf : i.zone ∈ F
-        · exact List.mem_append.mpr (Or.inr hf)
-        · have hh : isHealthy opRead cfg.hbTimeout now i = true := by
-            cases hh : isHealthy opRead cfg.hbTimeout now i
-            · exfalso; apply hf; rw [← hF]
-              exact (mem_zonesOf _ _).mpr ⟨i, List.mem_filter.mpr ⟨hi, by simp [hh]⟩, rfl⟩
-            · rfl
-          exact List.mem_append.mpr (Or.inl ((mem_zonesOf _ _).mpr ⟨i, hRmem i hi hh hf, rfl⟩))
-      have hk : (zonesOf d).length ≤ (zonesOf Ri).length + F.length := by
-        have := nodup_subset_length (zonesOf d) (zonesOf Ri ++ F) (nodup_dedupStr _) hcover
-        rwa [List.length_append] at this
-      -- pigeonhole on zones
-      have hAU : ∀ z ∈ A.map (·.zone), z ∈ zonesOf d := by
-        intro z hzm
-        rcases List.mem_map.mp hzm with ⟨a, ha, rfl⟩
-        exact (mem_zonesOf _ _).mpr ⟨a, (hAl a ha).2.2, rfl⟩
-      have hZU : ∀ z ∈ Zs, z ∈ zonesOf d := by
-        intro z hzm
-        rcases (mem_zonesOf _ _).mp (hZsub z hzm) with ⟨i, hi, rfl⟩
-        exact (mem_zonesOf _ _).mpr ⟨i, (hRsub i hi).1, rfl⟩
-      have hlen : (zonesOf d).length < (A.map (·.zone)).length + Zs.length := by
-        rw [List.length_map]
-        have h2 : min (zonesOf d).length cfg.rf / 2 ≤ cfg.rf / 2 :=
-          Nat.div_le_div_right (Nat.min_le_right _ _)
-        omega
-      obtain ⟨z, hzA, hzZ⟩ := pigeonhole (A.map (·.zone)) Zs (zonesOf d) hAz hZn hAU hZU hlen
-      rcases List.mem_map.mp hzA with ⟨a, ha, rfl⟩
-      refine ⟨a, ha, ?_, hzZ⟩
-      -- a is in R: healthy for Read, and its zone is a zone of R hence not a failing zone
-      rcases (mem_zonesOf _ _).mp (hZsub _ hzZ) with ⟨j, hj, hjz⟩
-      have hnf : a.zone ∉ F := hjz ▸ (hRsub j hj).2
-      exact hRmem a (hAl a ha).2.2 (hAl a ha).2.1 hnf
-
 /-! ### facts about a successful `GetReplicationSetForOperation` -/
 
 /-- the returned instances are a sub-list of the descriptor (so: registered, and pairwise distinct
@@ -376,5 +235,178 @@ theorem getAll_nodup (cfg : Cfg) (d : Desc) (toks : List Nat) (op : Op) (now : I
 theorem getAll_mem (cfg : Cfg) (d : Desc) (toks : List Nat) (op : Op) (now : Int) (R : RSetAll)
     (h : getAll cfg d toks op now = .ok R) : ∀ i ∈ R.instances, i ∈ d :=
   fun i hi => (getAll_ok_facts cfg d toks op now R h).1.subset hi
+
+/-! ### C02, not zone-aware -/
+
+theorem quorum_intersect_flat (cfg : Cfg) (d : Desc) (toks toks' : List Nat) (key : Nat) (now now' : Int)
+    (opW opR : Op) (W : RSet) (R : RSetAll) (A B : List Inst) (hza : cfg.zoneAware = false)
+    (hW : C01.get cfg d toks key opW now = .ok W) (hR : getAll cfg d toks' opR now' = .ok R)
+    (hA : writeOk A W) (hB : readOkFlat B R) : ∃ i, i ∈ A ∧ i ∈ B := by
+  obtain ⟨hrf, l, hwalk, hWi, hWn⟩ := PfC01.get_ok_inv cfg d toks key opW now W hW
+  have hld : ∀ i ∈ l, i ∈ d := PfC01.walk_subset cfg d _ 1 opW _ _ l hwalk
+  have hAd : ∀ a ∈ A, a ∈ d := by
+    intro a ha
+    have := hA.2.1 a ha
+    rw [hWi] at this
+    exact hld a (List.mem_filter.mp this).1
+  -- the read side
+  unfold getAll at hR
+  dsimp only at hR
+  by_cases h0 : toks'.length = 0
+  · rw [if_pos h0] at hR; cases hR
+  · rw [if_neg h0, hza] at hR
+    simp only [Bool.false_eq_true, if_false] at hR
+    have hmax : (if d.length < cfg.rf then cfg.rf else d.length) = max d.length cfg.rf := by
+      rw [Nat.max_def]; split <;> split <;> omega
+    rw [hmax] at hR
+    by_cases hlt : (d.filter (isHealthy opR cfg.hbTimeout now')).length < max d.length cfg.rf - cfg.rf / 2
+    · rw [if_pos hlt] at hR; cases hR
+    · rw [if_neg hlt] at hR
+      cases hR
+      have hBd : ∀ b ∈ B, b ∈ d := fun b hb => (List.mem_filter.mp (hB.2.1 b hb)).1
+      have hBn := hB.2.2
+      simp only at hBn
+      have hAn := hA.2.2
+      rw [hWn] at hAn
+      have hm := PfC01.majority_ge cfg.rf l.length
+      apply pigeonhole A B d hA.1 hB.1 hAd hBd
+      have h2 : cfg.rf / 2 ≤ cfg.rf := Nat.div_le_self _ _
+      have h3 : d.length ≤ max d.length cfg.rf := Nat.le_max_left _ _
+      have h4 : cfg.rf ≤ max d.length cfg.rf := Nat.le_max_right _ _
+      omega
+
+/-! ### C02, zone-aware -/
+
+theorem nonExtending_builtin : NonExtending opWrite ∧ NonExtending opWriteNoExtend ∧ NonExtending opReporting := by
+  refine ⟨?_, ?_, ?_⟩ <;> intro s <;> cases s <;> decide
+
+theorem quorum_intersect_zones (cfg : Cfg) (d : Desc) (toks toks' : List Nat) (key : Nat) (now now' : Int)
+    (opW opR : Op) (hne : NonExtending opW)
+    (W : RSet) (R : RSetAll) (A : List Inst) (Zs : List String) (hza : cfg.zoneAware = true)
+    (hz : ∀ i ∈ d, i.zone ≠ "")
+    (hW : C01.get cfg d toks key opW now = .ok W) (hR : getAll cfg d toks' opR now' = .ok R)
+    (hA : writeOk A W) (hZ : readOkZones Zs R) :
+    ∃ i, i ∈ A ∧ i ∈ R.instances ∧ i.zone ∈ Zs := by
+  obtain ⟨hrf, l, hwalk, hWi, hWn⟩ := PfC01.get_ok_inv cfg d toks key opW now W hW
+  obtain ⟨hnodup, _, hld⟩ := walk_zone_facts cfg d _ opW hza hz _ _ l hwalk
+  -- write side: members of A are registered, non-extending instances in pairwise distinct zones
+  have hAl : ∀ a ∈ A, a ∈ l.filter (fun i => !extendsOn opW i.state) ∧ a ∈ d := by
+    intro a ha
+    have h1 := hA.2.1 a ha
+    rw [hWi] at h1
+    have h2 := List.mem_filter.mp h1
+    have h3 : extendsOn opW a.state = false := by
+      have := h2.2; unfold isHealthy at this; rw [Bool.and_eq_true] at this
+      exact hne a.state this.1
+    exact ⟨List.mem_filter.mpr ⟨h2.1, by simp [h3]⟩, hld a h2.1⟩
+  have hAz : (A.map (·.zone)).Nodup :=
+    map_nodup_of_subset (·.zone) _ A hnodup hA.1 (fun a ha => (hAl a ha).1)
+  have hAn := hA.2.2
+  rw [hWn] at hAn
+  have hm := PfC01.majority_ge cfg.rf l.length
+  -- read side
+  unfold getAll at hR
+  dsimp only at hR
+  by_cases h0 : toks'.length = 0
+  · rw [if_pos h0] at hR; cases hR
+  · rw [if_neg h0, hza] at hR
+    simp only [if_true] at hR
+    by_cases hfgt : (zonesOf (d.filter (fun i => !isHealthy opR cfg.hbTimeout now' i))).length
+        > min (zonesOf d).length cfg.rf / 2 + 1 - 1
+    · rw [if_pos hfgt] at hR; cases hR
+    · rw [if_neg hfgt] at hR
+      cases hR
+      obtain ⟨hZn, hZsub, hZlen⟩ := hZ
+      simp only at hZsub hZlen
+      -- abbreviations
+      generalize hF : zonesOf (d.filter (fun i => !isHealthy opR cfg.hbTimeout now' i)) = F at *
+      generalize hRi : (if F.length > 0 then (d.filter (isHealthy opR cfg.hbTimeout now')).filter (fun i => !F.contains i.zone)
+                        else d.filter (isHealthy opR cfg.hbTimeout now')) = Ri at *
+      have hRmem : ∀ i ∈ d, isHealthy opR cfg.hbTimeout now' i = true → i.zone ∉ F → i ∈ Ri := by
+        intro i hi hh hnf
+        rw [← hRi]
+        split
+        · exact List.mem_filter.mpr ⟨List.mem_filter.mpr ⟨hi, hh⟩, by simpa using hnf⟩
+        · exact List.mem_filter.mpr ⟨hi, hh⟩
+      have hRsub : ∀ i ∈ Ri, i ∈ d ∧ i.zone ∉ F := by
+        intro i hi
+        rw [← hRi] at hi
+        split at hi
+        · have h1 := List.mem_filter.mp hi
+          exact ⟨(List.mem_filter.mp h1.1).1, by simpa using h1.2⟩
+        · rename_i hf0
+          have : F = [] := List.length_eq_zero_iff.mp (by omega)
+          exact ⟨(List.mem_filter.mp hi).1, by rw [this]; exact List.not_mem_nil⟩
+      -- every zone of the ring is a zone of R or a failing zone
+      have hcover : ∀ z ∈ zonesOf d, z ∈ zonesOf Ri ++ F := by
+        intro z hzmem
+        rcases (mem_zonesOf z d).mp hzmem with ⟨i, hi, rfl⟩
+        by_cases hf : i.zone ∈ F
+        · exact List.mem_append.mpr (Or.inr hf)
+        · have hh : isHealthy opR cfg.hbTimeout now' i = true := by
+            cases hh : isHealthy opR cfg.hbTimeout now' i
+            · exfalso; apply hf; rw [← hF]
+              exact (mem_zonesOf _ _).mpr ⟨i, List.mem_filter.mpr ⟨hi, by simp [hh]⟩, rfl⟩
+            · rfl
+          exact List.mem_append.mpr (Or.inl ((mem_zonesOf _ _).mpr ⟨i, hRmem i hi hh hf, rfl⟩))
+      have hk : (zonesOf d).length ≤ (zonesOf Ri).length + F.length := by
+        have := nodup_subset_length (zonesOf d) (zonesOf Ri ++ F) (nodup_dedupStr _) hcover
+        rwa [List.length_append] at this
+      -- pigeonhole on zones
+      have hAU : ∀ z ∈ A.map (·.zone), z ∈ zonesOf d := by
+        intro z hzm
+        rcases List.mem_map.mp hzm with ⟨a, ha, rfl⟩
+        exact (mem_zonesOf _ _).mpr ⟨a, (hAl a ha).2, rfl⟩
+      have hZU : ∀ z ∈ Zs, z ∈ zonesOf d := by
+        intro z hzm
+        rcases (mem_zonesOf _ _).mp (hZsub z hzm) with ⟨i, hi, rfl⟩
+        exact (mem_zonesOf _ _).mpr ⟨i, (hRsub i hi).1, rfl⟩
+      have hlen : (zonesOf d).length < (A.map (·.zone)).length + Zs.length := by
+        rw [List.length_map]
+        have h2 : min (zonesOf d).length cfg.rf / 2 ≤ cfg.rf / 2 :=
+          Nat.div_le_div_right (Nat.min_le_right _ _)
+        omega
+      obtain ⟨z, hzA, hzZ⟩ := pigeonhole (A.map (·.zone)) Zs (zonesOf d) hAz hZn hAU hZU hlen
+      rcases List.mem_map.mp hzA with ⟨a, ha, rfl⟩
+      refine ⟨a, ha, ?_, hzZ⟩
+      -- a is in R: its zone is a zone of R, hence not a failing zone, hence ALL its registered instances
+      -- (a among them) are healthy for the read at the read's own clock
+      rcases (mem_zonesOf _ _).mp (hZsub _ hzZ) with ⟨j, hj, hjz⟩
+      have hnf : a.zone ∉ F := hjz ▸ (hRsub j hj).2
+      have had : a ∈ d := (hAl a ha).2
+      have hh : isHealthy opR cfg.hbTimeout now' a = true := by
+        cases hh : isHealthy opR cfg.hbTimeout now' a
+        · exfalso; apply hnf; rw [← hF]
+          exact (mem_zonesOf _ _).mpr ⟨a, List.mem_filter.mpr ⟨had, by simp [hh]⟩, rfl⟩
+        · rfl
+      exact hRmem a had hh hnf
+
+/-- a duplicate-free sub-list that is at least as long as the list covers it -/
+theorem covers_of_length {α : Type} [DecidableEq α] (B R : List α) (hB : B.Nodup) (hsub : ∀ b ∈ B, b ∈ R)
+    (hlen : R.length ≤ B.length) : ∀ x ∈ R, x ∈ B := by
+  intro x hx
+  apply Classical.byContradiction
+  intro hxB
+  have h1 : B.length ≤ (R.erase x).length :=
+    nodup_subset_length B (R.erase x) hB (fun b hb => (List.mem_erase_of_ne (fun (e : b = x) => hxB (by rw [← e]; exact hb))).mpr (hsub b hb))
+  rw [List.length_erase_of_mem hx] at h1
+  have : 0 < R.length := List.length_pos_of_mem hx
+  omega
+
+/-- zone-aware read set executed by the plain tracker with no tolerated error (`ReplicationSet.Do` when
+`MaxUnavailableZones == 0`): every instance of the set must answer. -/
+theorem quorum_intersect_zones_all (cfg : Cfg) (d : Desc) (toks toks' : List Nat) (key : Nat) (now now' : Int)
+    (opW opR : Op) (hne : NonExtending opW)
+    (W : RSet) (R : RSetAll) (A B : List Inst) (hza : cfg.zoneAware = true)
+    (hz : ∀ i ∈ d, i.zone ≠ "")
+    (hW : C01.get cfg d toks key opW now = .ok W) (hR : getAll cfg d toks' opR now' = .ok R)
+    (hA : writeOk A W) (hB : readOkFlat B R) : ∃ i, i ∈ A ∧ i ∈ B := by
+  have hme : R.maxErrors = 0 := (getAll_ok_facts cfg d toks' opR now' R hR).2.2.1 hza
+  have hZ : readOkZones (zonesOf R.instances) R := ⟨nodup_dedupStr _, fun z hz => hz, Nat.sub_le _ _⟩
+  obtain ⟨i, hiA, hiR, _⟩ := quorum_intersect_zones cfg d toks toks' key now now' opW opR hne W R A _ hza hz hW hR hA hZ
+  have hlen := hB.2.2
+  rw [hme, Nat.sub_zero] at hlen
+  exact ⟨i, hiA, covers_of_length B R.instances hB.1 hB.2.1 hlen i hiR⟩
+
 
 end PfC02
